@@ -40,6 +40,7 @@ fn main() {
         ["trace", "kmermin", ..] => traces::minimiser(arg(&a, 2), arg(&a, 3), arg(&a, 4), true),
         ["table", "oligo", ..] => tables::oligo(arg(&a, 2), arg(&a, 3), arg(&a, 4), &a[5], &a[6]),
         ["table", "cgr", ..] => tables::cgr(arg(&a, 2), arg(&a, 3), arg(&a, 4)),
+        ["trace", "oligobig", ..] => facts::oligo_big(arg(&a, 2), arg(&a, 3), &a[4]),
         ["trace", "oligo", ..] => facts::oligo(arg(&a, 2), arg(&a, 3), arg(&a, 4), &a[5]),
         ["trace", "cgr", ..] => facts::cgr(arg(&a, 2), arg(&a, 3), arg(&a, 4)),
         ["trace", "cgrfile", ..] => facts::cgr_file(arg(&a, 2), arg(&a, 3), arg(&a, 4), &a[5]),
@@ -47,7 +48,9 @@ fn main() {
         ["decode", "oligo", ..] => facts::decode_oligo(&a[2], &a[3], arg(&a, 4), a[5] == "1", &a[6], a[7] == "1", &a[8]),
         ["decode", "cgr", ..] => facts::decode_cgr(&a[2], &a[3], arg(&a, 4), &a[5]),
         ["decode", "ocgr", ..] => facts::decode_ocgr(&a[2], &a[3], arg(&a, 4), arg(&a, 5), a[6] == "1", &a[7]),
-        ["gen", "fasta", ..] => facts::gen_fasta(arg(&a, 2), arg(&a, 3), arg(&a, 4), &a[5], a.get(6).map(|x| x == "clean").unwrap_or(false)),
+        ["gen", "fasta", ..] => facts::gen_fasta(arg(&a, 2), arg(&a, 3), arg(&a, 4), &a[5], a.get(6).map(|x| x == "clean").unwrap_or(false),
+            a.get(6).and_then(|x| x.strip_prefix("ratio")).and_then(|x| x.parse().ok()).unwrap_or(0),
+        ),
         ["table", "ocgr", ..] => tables::ocgr(arg(&a, 2), arg(&a, 3), arg(&a, 4), &a[5], &a[6]),
         ["replay", "oligommap", ..] => mmaprun::replay(&a[2], arg(&a, 3), arg(&a, 4), &a[5], arg(&a, 6), arg(&a, 7)),
         ["trace", "oligommap", ..] => mmaprun::free(arg(&a, 2), arg(&a, 3), &a[4], arg(&a, 5)),
@@ -55,6 +58,7 @@ fn main() {
         ["trace", "oligopaths", ..] => paths::oligo_paths(arg(&a, 2), arg(&a, 3), &a[4], arg(&a, 5)),
         ["trace", "counter", ..] => ctrrun::free(arg(&a, 2), arg(&a, 3), &a[4], arg(&a, 5)),
         ["trace", "ctrstress", ..] => ctrrun::stress(arg(&a, 2), arg(&a, 3), &a[4], arg(&a, 5)),
+        ["trace", "ctrbig", ..] => ctrrun::big(arg(&a, 2), &a[3]),
         ["trace", "coverage", ..] => covrun::trace(arg(&a, 2), arg(&a, 3), &a[4], arg(&a, 5), &a[6]),
         ["trace", "idx", ..] => covrun::idx(arg(&a, 2), arg(&a, 3), &a[4]),
         ["trace", "minout", ..] => minrun::free(arg(&a, 2), arg(&a, 3), &a[4], arg(&a, 5)),
